@@ -30,6 +30,7 @@ import (
 	host "github.com/libp2p/go-libp2p-core/host"
 	peer "github.com/libp2p/go-libp2p-core/peer"
 	rpc "github.com/libp2p/go-libp2p-gorpc"
+	dual "github.com/libp2p/go-libp2p-kad-dht/dual"
 	pubsub "github.com/libp2p/go-libp2p-pubsub"
 	ma "github.com/multiformats/go-multiaddr"
 )
@@ -467,6 +468,7 @@ type ClusterOpts struct {
 	BeforeStart func(m *Monitor)      // configure the fake monitor before the cluster starts publishing
 	Host        host.Host             // use this host instead of creating one
 	Consensus   ipfscluster.Consensus // use this consensus component instead of the fake
+	DHT         bool                  // give the cluster a real dual DHT (needed by Join)
 }
 
 // ClusterFixture is a real Cluster with harness components.
@@ -488,6 +490,18 @@ type ClusterFixture struct {
 
 // NewCluster builds the fixture and waits until the cluster is ready.
 func NewCluster(o ClusterOpts) *ClusterFixture {
+	f := NewClusterNoWait(o)
+	select {
+	case <-f.C.Ready():
+	case <-time.After(30 * time.Second):
+		panic("VERIF-INFRA: cluster fixture not ready after 30s")
+	}
+	f.waitBoot()
+	return f
+}
+
+// NewClusterNoWait builds the fixture without waiting for readiness.
+func NewClusterNoWait(o ClusterOpts) *ClusterFixture {
 	ctx, cancel := context.WithCancel(context.Background())
 	if o.Key == nil {
 		o.Key = gen.PeerKeys[0]
@@ -559,17 +573,24 @@ func NewCluster(o ClusterOpts) *ClusterFixture {
 	if o.Consensus != nil {
 		cons = o.Consensus
 	}
-	c, err := ipfscluster.NewCluster(ctx, h, nil, cfg, dssync.MutexWrap(ds.NewMapDatastore()), cons,
+	var idht *dual.DHT
+	if o.DHT {
+		idht, err = dual.New(ctx, h)
+		if err != nil {
+			panic(err)
+		}
+	}
+	c, err := ipfscluster.NewCluster(ctx, h, idht, cfg, dssync.MutexWrap(ds.NewMapDatastore()), cons,
 		[]ipfscluster.API{f.API}, f.IPFS, f.Tracker, mon, alloc, []ipfscluster.Informer{f.Inf}, tracer)
 	if err != nil {
 		panic(err)
 	}
 	f.C = c
-	select {
-	case <-c.Ready():
-	case <-time.After(30 * time.Second):
-		panic("VERIF-INFRA: cluster fixture not ready after 30s")
-	}
+	return f
+}
+
+func (f *ClusterFixture) waitBoot() {
+	ctx := context.Background()
 	if f.RealMon != nil {
 		// The cluster publishes its own ping and informer metric once at
 		// start (then every hour); they come back through pubsub
@@ -595,7 +616,6 @@ func NewCluster(o ClusterOpts) *ClusterFixture {
 			time.Sleep(10 * time.Millisecond)
 		}
 	}
-	return f
 }
 
 // Close shuts the fixture down.
